@@ -93,4 +93,10 @@ IdleMeansConsumed == pc = "idle" /\ sent # <<>> /\ ~expired /\ Joined(m) => CntL
 NeverWraps == [][Joined(m') => ~CntLt(m'.sess.up, m.sess.up)]_mcvars
 
 Bound == Len(sent) <= 3
+
+\* --- liveness (C04 at the design level: a procedure never hangs).  Under weak fairness of the procedure's own
+\* steps (the radio and the timer eventually answer), every procedure returns to the caller.
+ProcStep == Fault \/ ClassCFrame \/ Step \/ Listen \/ AfterAccept \/ Wc2 \/ Complete
+LiveSpec == Init /\ [][Next]_mcvars /\ WF_mcvars(Step \/ Listen \/ AfterAccept \/ Wc2 \/ Complete)
+ProcedureReturns == (pc # "idle") ~> (pc = "idle")
 =============================================================================
